@@ -527,10 +527,20 @@ func (pr *Program) LemmaObligations(c *Contract, pi *PkgInfo) (obls []*Obligatio
 	tag := p + "." + c.FuncName
 	x.fnTag = tag
 	obls = append(obls, &Obligation{Name: tag + "/cover#pre", Prop: c.Prop(), Kind: "cover", Cover: true, Hyp: s.PC, Goal: True, Pos: fmt.Sprintf("%s:%d", c.File, c.Line)})
+	proved := map[string]*Term{}
 	for _, cl := range c.Clauses {
 		if cl.Kind == "ensures" {
 			g := x.evalClause(s, cl, sc)
-			obls = append(obls, &Obligation{Name: fmt.Sprintf("%s/ensures#%s", tag, cl.Tag), Prop: cl.propOr(c.Prop()), Kind: "lemma", Hyp: s.PC, Goal: g, Pos: fmt.Sprintf("%s:%d", c.File, c.Line), Src: cl.Src})
+			hyp := s.PC
+			for _, u := range cl.Using {
+				if pg, ok := proved[u]; ok {
+					hyp = And(hyp, pg)
+				} else {
+					return nil, fmt.Errorf("lemma %s: 'by #%s' refers to no earlier ensures clause", c.FuncName, u)
+				}
+			}
+			proved[cl.Tag] = g
+			obls = append(obls, &Obligation{Name: fmt.Sprintf("%s/ensures#%s", tag, cl.Tag), Prop: cl.propOr(c.Prop()), Kind: "lemma", Hyp: hyp, Goal: g, Pos: fmt.Sprintf("%s:%d", c.File, c.Line), Src: cl.Src, Slow: cl.Slow})
 		}
 	}
 	x.Obls = obls
